@@ -100,6 +100,7 @@ class GraphicalModel:
         updating_node : str
 
         """
+        self._check_update(node, updating_node)
         out_edges = list(self.source_net.edges(node, data=True))
         self.remove_node(node)
         self.source_net.add_node(node, attr_dict=self.source_net.nodes[updating_node]['attr_dict'])
@@ -110,6 +111,12 @@ class GraphicalModel:
             self.source_net.add_edge(u, node, **data)
 
         self.remove_node(updating_node)
+
+    def _check_update(self, node, updating_node):
+        """Refuse an update that would close a cycle, before anything is changed."""
+        if node == updating_node or nx.has_path(self.source_net, node, updating_node):
+            raise ValueError("Node {} cannot become {}: a node cannot take over the parents of itself or "
+                             "of its own descendant.".format(node, updating_node))
 
     def get_parents(self, child_name):
         """Return the names of parents of node `child_name`.
